@@ -1384,7 +1384,7 @@ pub fn build(d: &mut Dna, cfg: &GenCfg) -> Built {
             }
         }
     }
-    let mut spec = TypeSpec { kind, name: type_name, gens, repr, traits: tattrs, split: d.byte(), variants, raw: vec![], extra_items: vec![], noise: vec![], disc_shift: false, via_macro: 0, type_expr_expect: None };
+    let mut spec = TypeSpec { kind, name: type_name, gens, repr, traits: tattrs, split: d.byte(), variants, raw: vec![], extra_items: vec![], noise: vec![], disc_shift: 0, via_macro: 0, type_expr_expect: None };
 
     // type-level Default expression: a full constructor of the default variant, all fields value 1
     if type_level_default_expr {
@@ -1484,6 +1484,10 @@ pub fn build(d: &mut Dna, cfg: &GenCfg) -> Built {
         }
         if spec.has(Tr::Into) && d.chance(60) {
             m |= 8;
+        }
+        // (a type-level Default expression spells the field names out in the macro body, where the caller's names are not visible)
+        if spec.all_fields().any(|f| f.name.is_some()) && !type_level_default_expr && d.chance(50) {
+            m |= 16;
         }
         if m != 0 {
             spec.via_macro = m;
